@@ -70,7 +70,7 @@ CLAIMS = {
              "Every option::/result:: macro in every argument form on both variants and boundary payloads with fallback call counts, try_!/try_opt! vs `?`, min/max families on keyed values with identity tags; try_rebind!/rebind_if_ok! for every arity 1..=6 and position kind (complete to arity 3) compiled alone (must compile) and compared with a hand-written match on Ok and Err inputs (evaluation counts of the operand included; typed, mut, ref and coercion-site let forms); every macro argument is an effectful expression whose evaluation count and order must equal the std call (defect F19: max_by_key!); function-valued argument expressions are counted too (listed finding).",
              "DESIGN.md §3 C19", "harness/src/bin/c19.rs, progs/gen_rebind.py"),
     "C20": C("complete enumeration of CStr inputs vs core::ffi::CStr + generated const programs for the concat/join macros vs std",
-             "All byte strings up to length 7 over {0,'a',0xFF} and up to 5 over a UTF-8-relevant alphabet for the CStr constructors/views; 800+ generated const items for str_concat!/str_join!/string::from_iter!/slice_concat! (all argument forms, empty lists/pieces, multi-byte separators) compared with concat/join/collect at run time; a quarter of the programs have a caller module named `core`, element types mention caller constants named like the macros' items, and total lengths that overflow usize must be rejected in both profiles (defects F21-F23).",
+             "All byte strings up to length 7 over {0,'a',0xFF} and up to 5 over a UTF-8-relevant alphabet for the CStr constructors/views; 800+ generated const items for str_concat!/str_join!/string::from_iter!/slice_concat! (all argument forms, empty lists/pieces, multi-byte separators, the first/last scalar of every UTF-8 length in every char/str element and separator position) compared with concat/join/collect at run time; a quarter of the programs have a caller module named `core`, element types mention caller constants named like the macros' items, and total lengths that overflow usize must be rejected in both profiles (defects F21-F23).",
              "DESIGN.md §3 C20, §9.2, §9.3.1", "harness/src/bin/c20.rs, progs/gen_concat.py, progs/gen_deep.py"),
     "C16": C("differential testing vs PartialEq/Ord on boundary-value tables: all pairs, all Option combinations, all triples for the order laws",
              "Every public eq_*/cmp_* function (14 scalar types, their slices, Option variants, NonZero, ranges, Ordering, str, &[&str], &[&[u8]]) and const_eq!/const_cmp!/const_eq_for!/const_cmp_for!/assertc_* forms over all pairs of boundary values and all pairs of slices of length <= 3, plus antisymmetry/transitivity over all triples; assertc_eq!/assertc_ne! with effectful operands (each evaluated once, the compared value is that evaluation's); range bounds congruent modulo 2^8..2^64 and RangeInclusive operands iterated to exhaustion (listed finding).",
